@@ -167,7 +167,7 @@ def make_jobs(tier, seed):
         for rep in range(6):
             for i in range(0, len(names), chunk):
                 jobs.append({'names': names[i:i + chunk], 'seed': rng.randrange(1 << 30), 'mode': 'bc', 'nparams': 40, 'lengths': LENGTHS,
-                             'kinds': ['walk', 'lattice', 'gappy', 'alternating', 'trend', 'spikes', 'flat', 'zerovol', 'tiny', 'flattail', 'outside']})
+                             'kinds': ['walk', 'lattice', 'gappy', 'alternating', 'trend', 'spikes', 'flat', 'zerovol', 'tiny', 'flattail', 'outside', 'ties']})
         for i in range(0, len(names), chunk):
             jobs.append({'names': names[i:i + chunk], 'seed': rng.randrange(1 << 30), 'mode': 'jit', 'nparams': 3,
                          'lengths': LENGTHS, 'kinds': ['walk', 'flat', 'alternating']})
